@@ -40,6 +40,7 @@ CONCEPTS = ['alpha', 'beta', 'bark-01', 'i', 'a', 'b', '"str"', '7', 'A', '_']
 def cases(ctx):
     q = ctx.tier == 'quick'
     n = 2500 if q else 40000
+    ctx.new_phase()
     for i in range(n):
         if not ctx.time_left():
             break
